@@ -96,11 +96,27 @@ def r_validation(repo, rep, R='R11.1'):
     rep.check(every_sentence, R, w, '_type_check:all-sentences', 'every sentence of the batch is validated against its own scores', 'validation does not iterate zip(doc, score_results)')
 
 
-def r_chunks(repo, rep, R='R11.2'):
+def chunker(repo):
+    """the generator that cuts a batch into chunks: `_chunks`, or (by role) the one module-level generator function of
+    depccg/parsing.py.  -> (function, mode): mode 'items' when it yields pieces of a list it is given, 'slices' when it
+    yields slice objects for a given length."""
     mod = repo.module(REL)
-    fn = mod.get('_chunks')
+    fn = mod.get('_chunks', required=False)
+    if fn is None:
+        gens = [f for f in mod.tree.body if isinstance(f, ast.FunctionDef) and any(isinstance(n, (ast.Yield, ast.YieldFrom)) for n in ast.walk(f))]
+        if len(gens) != 1:
+            raise AnalysisError('%s: the function that cuts a batch into chunks was not found (generator functions: %s)' % (REL, [g.name for g in gens]))
+        fn = gens[0]
+    ys = [n for n in ast.walk(fn) if isinstance(n, ast.Yield)]
+    mode = 'slices' if ys and all(isinstance(y.value, ast.Call) and src(y.value.func) == 'slice' for y in ys) else 'items'
+    return fn, mode
+
+
+def r_chunks(repo, rep, R='R11.2'):
+    fn, mode = chunker(repo)
     lst, nch = [a.arg for a in fn.args.args][:2]
-    w = '%s:%s _chunks' % (REL, fn.lineno)
+    size = 'len(%s)' % lst if mode == 'items' else lst
+    w = '%s:%s %s' % (REL, fn.lineno, fn.name)
     ys = [n for n in ast.walk(fn) if isinstance(n, ast.Yield)]
     loops = [n for n in ast.walk(fn) if isinstance(n, ast.For)]
     ok = len(ys) == 1 and len(loops) == 1
@@ -108,19 +124,23 @@ def r_chunks(repo, rep, R='R11.2'):
     if ok:
         l = loops[0]
         it = l.iter
-        ok = isinstance(it, ast.Call) and src(it.func) == 'range' and len(it.args) == 3 and src(it.args[0]) == '0' and src(it.args[1]) == 'len(%s)' % lst
+        ok = isinstance(it, ast.Call) and src(it.func) == 'range' and len(it.args) == 3 and src(it.args[0]) == '0' and src(it.args[1]) == size
         step = src(it.args[2]) if ok else None
         i = src(l.target)
         y = ys[0].value
-        ok = ok and isinstance(y, ast.Subscript) and src(y.value) == lst and isinstance(y.slice, ast.Slice) and src(y.slice.lower) == i and \
-            src(y.slice.upper).replace(' ', '') in ('%s+%s' % (i, step), '%s+%s' % (step, i)) and y.slice.step is None
+        if mode == 'items':
+            ok = ok and isinstance(y, ast.Subscript) and src(y.value) == lst and isinstance(y.slice, ast.Slice) and src(y.slice.lower) == i and \
+                src(y.slice.upper).replace(' ', '') in ('%s+%s' % (i, step), '%s+%s' % (step, i)) and y.slice.step is None
+        else:
+            ok = ok and len(y.args) == 2 and not y.keywords and src(y.args[0]) == i and \
+                src(y.args[1]).replace(' ', '') in ('%s+%s' % (i, step), '%s+%s' % (step, i))
         detail = 'yields %s for %s in %s' % (src(y), i, src(it))
         # the step is positive whenever the list is non-empty
         stepdef = [s for s in fn.body if isinstance(s, ast.Assign) and src(s.targets[0]) == step]
-        okstep = bool(stepdef) and src(stepdef[0].value).replace(' ', '') == 'math.ceil(len(%s)/max(%s,1))' % (lst, nch)
+        okstep = bool(stepdef) and src(stepdef[0].value).replace(' ', '') == 'math.ceil(%s/max(%s,1))' % (size, nch)
         rep.check(okstep, R, w, '_chunks:step', 'the chunk size is ceil(len / max(num_chunks, 1)): at least 1 for a non-empty list', 'chunk size is %s' % (src(stepdef[0].value) if stepdef else '?'))
     rep.check(ok, R, w, '_chunks:contiguous', 'chunks are consecutive slices covering the list without gap or overlap (%s)' % detail,
-              '_chunks is not `for i in range(0, len(l), step): yield l[i:i+step]` (%s)' % detail)
+              '%s is not `for i in range(0, len(l), step): yield l[i:i+step]` (%s)' % (fn.name, detail))
 
 
 def r_gather(repo, rep, R='R11.3'):
@@ -140,9 +160,15 @@ def r_gather(repo, rep, R='R11.3'):
         return
     st = pooled
     calls = all_calls(st)
-    chunks_call = [c for c in calls if c[1] == N('_chunks')]
-    zipped = ('call', N('list'), (('call', N('zip'), (st.env.get('doc', N('doc')), st.env.get('score_results', N('score_results'))), ()),), ())
-    ok = bool(chunks_call) and chunks_call[0][2][0] == zipped
+    cfn, mode = chunker(repo)
+    chunks_call = [c for c in calls if c[1] == N(cfn.name)]
+    d_doc, d_sc = st.env.get('doc', N('doc')), st.env.get('score_results', N('score_results'))
+    zipped = ('call', N('list'), (('call', N('zip'), (d_doc, d_sc), ()),), ())
+    if mode == 'items':
+        ok = bool(chunks_call) and chunks_call[0][2][0] == zipped
+    else:
+        # one sequence of slices for both lists (validated to have the same length)
+        ok = bool(chunks_call) and chunks_call[0][2][0] in (('call', N('len'), (d_doc,), ()), ('call', N('len'), (d_sc,), ()))
     rep.check(ok, R, w, 'run:chunk-source', 'the batch is chunked as the list of (sentence, scores) pairs in input order',
               'chunks are taken from %s' % (show(chunks_call[0][2][0])[:80] if chunks_call else None))
     sub = [c for c in calls if is_submit(c)]
@@ -160,6 +186,8 @@ def r_gather(repo, rep, R='R11.3'):
             chunk = ('unpack', elems[0], 1)
             z = ('call', N('zip'), (('star', chunk),), ())
             want_head = (('call', N('list'), (('unpack', z, 0),), ()), ('call', N('list'), (('unpack', z, 1),), ()))
+            if mode == 'slices':
+                want_head = (('sub', d_doc, chunk), ('sub', d_sc, chunk))
             okargs = args_t[0] == 'binop' and len(args_t) == 4 and args_t[1] == '+' and args_t[2] == ('tuple', want_head) \
                 and bool(sub[0][2]) and sub[0][2][0] == A(A(N('depccg'), '_parsing'), 'run')
     rep.check(okargs, R, w, 'run:chunk-args', 'each worker gets the sentences and the scores of its own chunk, in chunk order', 'worker args are %s' % (show(args_t)[:120] if args_t else None))
